@@ -126,8 +126,32 @@ pub fn new_app() -> PApp {
 }
 
 pub fn new_app_with(kind: ApiKind) -> PApp {
+    new_app_setup(kind, false)
+}
+
+pub const PRESTORED_TAG: u32 = 77;
+
+/// A checksum generator that computes what the default one computes (it is not exported).
+pub struct SameAsDefaultChecksums;
+impl cw_multi_test::ChecksumGenerator for SameAsDefaultChecksums {
+    fn checksum(&self, _creator: &Addr, code_id: u64) -> Checksum {
+        Checksum::generate(format!("contract code {}", code_id).as_bytes())
+    }
+}
+
+/// `prestored`: a code is stored on the wasm keeper before its generators are configured and before the keeper is
+/// handed to the builder (code id 1, creator = the default creator); it must be there afterwards like any other.
+pub fn new_app_setup(kind: ApiKind, prestored: bool) -> PApp {
     let b: cw_multi_test::BasicAppBuilder<PMsg, PQuery> = AppBuilder::new_custom();
-    b.with_custom(CustomMod).with_api(FlexApi::of(kind)).build(|_, _, _| {})
+    if prestored {
+        use cw_multi_test::Wasm;
+        let mut keeper: WasmKeeper<PMsg, PQuery> = WasmKeeper::new();
+        keeper.store_code(MockApi::default().addr_make("creator"), Box::new(Puppet { code_tag: PRESTORED_TAG, checksum: None }));
+        let keeper = keeper.with_address_generator(cw_multi_test::SimpleAddressGenerator).with_checksum_generator(SameAsDefaultChecksums);
+        b.with_custom(CustomMod).with_api(FlexApi::of(kind)).with_wasm(keeper).build(|_, _, _| {})
+    } else {
+        b.with_custom(CustomMod).with_api(FlexApi::of(kind)).build(|_, _, _| {})
+    }
 }
 
 /// An instance of the same type but with another address prefix and another starting block.
@@ -178,6 +202,9 @@ pub struct Case {
     /// the address codec the chain is built with
     #[serde(default)]
     pub api: ApiKind,
+    /// a code was stored on the wasm keeper before it was configured and handed to the builder
+    #[serde(default)]
+    pub prestored: bool,
 }
 
 /// A discrepancy: the properties it refutes, a stable signature, and a description.
@@ -218,9 +245,20 @@ impl World {
     }
 
     pub fn with_api(kind: ApiKind) -> World {
-        let app = new_app_with(kind);
+        World::with_setup(kind, false)
+    }
+
+    pub fn for_case(case: &Case) -> World {
+        World::with_setup(case.api, case.prestored)
+    }
+
+    pub fn with_setup(kind: ApiKind, prestored: bool) -> World {
+        let app = new_app_setup(kind, prestored);
         let mut model = ChainM::new(block_tuple(&app.block_info()));
         model.api = kind;
+        if prestored {
+            model.codes.insert(1, CodeM { creator: MockApi::default().addr_make("creator").to_string(), checksum: default_checksum(1), code_tag: PRESTORED_TAG, lifted: false, entry_points: (true, true, true) });
+        }
         let users = (0..3).map(|i| app.api().addr_make(&format!("user{}", i)).to_string()).collect();
         let _ = take_trace();
         World { app, model, users, transcript: None, rolled_back_insts: 0 }
@@ -438,7 +476,7 @@ fn structural_props(e: &Entry) -> Vec<&'static str> {
 fn why_props(w: &Why) -> Vec<&'static str> {
     match w {
         Why::BadAttribute => vec!["C13"],
-        Why::Overdraft | Why::NoPositiveAmount => vec!["C05", "C09"],
+        Why::Overdraft | Why::NoPositiveAmount | Why::BalanceOverflow => vec!["C05", "C09"],
         Why::DuplicateAddress | Why::EmptyLabel | Why::NoSuchCode | Why::BadSalt => vec!["C11"],
         Why::NotAdmin => vec!["C12"],
         Why::NoEntryPoint => vec!["C12", "C03"],
@@ -897,6 +935,15 @@ impl World {
                 }
                 let got = match got {
                     Ok(g) => g,
+                    // a credit beyond the 128-bit range: the call has to fail; the simulator does so by panicking in its
+                    // checked arithmetic, which is as good as an error as long as nothing was changed
+                    Err(p) if matches!(&expected, Err(Why::BalanceOverflow)) && p.contains("verflow") => {
+                        rep.bump("e1/tx/credit_beyond_128_bits_refused");
+                        if rawstate::dump(self.app.storage()) != before {
+                            discs.push(Disc { props: vec!["C01", "C05", "C09"], sig: "refused-transfer-left-state-changes".into(), detail: format!("{}: panic {} after changing state", short_op(op), p) });
+                        }
+                        return (discs, None);
+                    }
                     Err(p) => {
                         // a call that neither returns nor errs: C01; plus the properties that promise the operation works
                         let f = op_features(op);
@@ -1016,6 +1063,11 @@ impl World {
                         let mut props = vec!["C01"];
                         if bank_of(&before) != bank_of(&after) && op_features(op).funds {
                             props.push("C05");
+                        }
+                        // the failure came from below the entered contract (a sub-message, a reply): its parent has not
+                        // failed as a whole (C02)
+                        if info.out.failures.iter().any(|f| f.1 >= 1 && !f.2) {
+                            props.push("C02");
                         }
                         discs.push(Disc { props, sig: format!("failed-{}-left-state-changes", kind), detail: format!("{:?}: {:?}", short_op(op), rawstate::diff(&before, &after)) });
                         // what App queries show now: the committed state is still the one before the failed call
